@@ -83,6 +83,32 @@ func encode(k, v []byte) (res string) {
 		if uerr != nil || e2 != nil || back.Key != string(k) || back.Val != string(v) || n != len(data) {
 			viol("roundtrip", "roundtrip", fmt.Sprintf("decode(encode(pair)) = err %v/%v, consumed %d of %d, equal=%v", uerr, e2, n, len(data), back.Key == string(k) && back.Val == string(v)), opd)
 		}
+		// the decoded pair is the caller's: it does not change when the input buffer is reused afterwards (a recycled read
+		// buffer), and what MarshalTo writes does not depend on what the caller's buffer held before
+		if len(data) <= 1<<16 {
+			buf := append([]byte{}, data...)
+			var b4 kv.KV
+			if _, e4 := b4.Unmarshal(buf); e4 == nil {
+				for i := range buf {
+					buf[i] = 0xff
+				}
+				run.Count("c20:buffer_reuse_checked")
+				if b4.Key != string(k) || b4.Val != string(v) {
+					viol("roundtrip", "decoded-pair-aliases-input", "the pair decoded from a buffer changed when the buffer was overwritten afterwards: it shares memory with the input", opd)
+				}
+			}
+			for _, fill := range []byte{0xff, 0x01, 0x7f} {
+				dirty := make([]byte, l)
+				for i := range dirty {
+					dirty[i] = fill
+				}
+				n5 := o.MarshalTo(dirty)
+				if n5 != len(data) || string(dirty[:min(n5, len(dirty))]) != string(data) {
+					viol("marshal_len", "marshalto-depends-on-buffer", fmt.Sprintf("MarshalTo into a buffer filled with %#x wrote %d bytes that differ from MarshalBinary's %d bytes (the encoding depends on what the buffer held before)", fill, n5, len(data)), opd)
+					break
+				}
+			}
+		}
 		// trailing bytes after a valid encoding are reported
 		var b3 kv.KV
 		if e3 := b3.UnmarshalBinary(append(append([]byte{}, data...), 0x00)); e3 != kv.ColferTail(len(data)) {
